@@ -1,7 +1,125 @@
-(* Sim/Proto.v — the protocol model: local rules every instance follows, as guards on
-   observations. (under construction) *)
+(* Sim/Proto.v — the protocol model of the election library: the LOCAL rules every
+   instance follows, stated as guards on observations. A rule mentions only the acting
+   instance's configuration and observable state, the arguments and results of its own
+   store calls, and the store contract (Store.v / harness/refstore) at the linearisation
+   points. The theorems (Proofs/Sim*.v) derive the GLOBAL properties (Mon.v) for every
+   trace these rules admit; the correspondence check replays the real library's traces
+   through [guards] and reports the first rule that does not hold.
+
+   Comparisons and constants come from gen/GenGuards.v, regenerated from the source. *)
 From RecordUpdate Require Import RecordUpdate.
-From LE Require Import Base Ev World.
+From LE Require Import Base Ev World Mon GenGuards.
 Open Scope Z_scope.
 
-Definition check_guards (tr : trace) : list (Z * Z) := [].
+Definition rule := Z.
+
+Fixpoint view_mem (tk r : Z) (l : list (Z * Z)) : bool :=
+  match l with [] => false | (a, c) :: rest => ((a =? tk) && (c =? r)) || view_mem tk r rest end.
+
+(* R-fresh: the payload of an acquisition attempt has never been handed to the store before and no
+   other known value carries its token (uuid.New() per attempt; trusted: UUIDs do not repeat) *)
+Definition fresh_payload (b : base) (val : Z) : bool :=
+  negb (existsb (fun op => p_val (snd op) =? val) (b_pend b)) &&
+  forallb (fun vi => (fst vi =? val) || negb (v_stok (snd vi) =? tok_of b val)) (b_vals b).
+
+(* R-takeover: the Update of a priority takeover is issued by the goroutine whose previous call was a
+   successful Get of the record, against exactly the revision read, only when takeover is enabled and
+   the stored priority is strictly lower; it publishes the payload of the attempt's own Create *)
+Definition takeover_ok (b : base) (i gid val exp : Z) : bool :=
+  let c := cfg_of b i in
+  match aget (b_rets b) gid with
+  | Some r =>
+      (lr_i r =? i) && (lr_kind r =? kGet) && (lr_rk r =? oOk) && (lr_rev r =? exp) && (lr_key r =? ic_key c)
+      && sok_of b (lr_val r) && negb (gen_takeover_yields (ic_prio c) (prio_of b (lr_val r)))
+      && gen_takeover_enabled (ic_takeover c) (ic_prio c)
+      && sok_of b val && (sid_of b val =? i)
+      && existsb (fun op => let p := snd op in (p_i p =? i) && (p_kind p =? kCreate) && (p_val p =? val) && (p_gid p =? gid)) (b_pend b)
+  | None => false
+  end.
+
+Definition when (c : bool) (r : rule) : list rule := if c then [r] else [].
+
+(* the rules; evaluated on the state before the observation *)
+Definition guards (b : base) (te : Z * ev) : list rule :=
+  match snd te with
+  | EValDef v _ _ _ _ _ _ _ _ _ _ => when (match aget (b_vals b) v with Some _ => true | None => false end) 2060
+  | EInstDef i _ _ _ _ _ _ _ _ _ _ _ _ _ => when (match aget (b_cfgs b) i with Some _ => true | None => false end) 2061
+  | EIssue i op kind inner root gid key val exp =>
+      let c := cfg_of b i in
+      when (match aget (b_pend b) op with Some _ => true | None => false end) 2009 ++
+      when (negb (key =? ic_key c)) 2001 ++
+      (if kind =? kCreate then
+         when (negb (sok_of b val && (sid_of b val =? i) && (prio_of b val =? ic_prio c) && negb (tok_of b val =? 0))) 2002 ++
+         when (negb (fresh_payload b val)) 2003
+       else if kind =? kUpdate then
+         if inner =? sHeartbeat then
+           when (negb (sok_of b val && (sid_of b val =? i) && view_mem (tok_of b val) exp (io_views (inst_of b i)))) 2004
+         else if inner =? sTakeover then when (negb (takeover_ok b i gid val exp)) 2005
+         else [2006]
+       else if kind =? kDelete then when (negb (inner =? sStopCtx)) 2007
+       else [])
+  | EApply op okind rev val =>
+      match aget (b_pend b) op with
+      | None => [2010]
+      | Some p =>
+          when (match p_applied p with Some _ => true | None => false end) 2011 ++
+          (if p_kind p =? kWatch then [] else
+           let '(ok, r) := store_outcome b (p_kind p) (p_key p) (p_exp p) in
+           when (negb ((ok =? okind) && (r =? rev))) 2012 ++
+           when ((p_kind p =? kGet) && (okind =? oOk) &&
+                 negb (match live_val b (p_key p) with Some (_, v) => v =? val | None => false end)) 2013)
+      end
+  | ERet i op rk rev val =>
+      match aget (b_pend b) op with
+      | None => [2020]
+      | Some p =>
+          when (negb (p_i p =? i)) 2021 ++
+          (if (rk <? 10) && negb (p_kind p =? kWatch) then
+             match p_applied p with
+             | Some (ok, r, v, _) => when (negb ((ok =? rk) && ((r =? rev) || negb (rk =? oOk)) && (negb (p_kind p =? kGet) || negb (rk =? oOk) || (v =? val)))) 2022
+             | None => [2022]
+             end
+           else [])
+      end
+  | EFlag i fl cause root gid =>
+      let x := inst_of b i in
+      if zb fl then
+        when (io_state x =? stStopped) 2030 ++ when (io_flag x) 2031 ++
+        when (ic_hasdemote (cfg_of b i) && negb (io_demotes x =? io_ended x)) 2045 ++
+        match aget (b_rets b) gid with
+        | Some r => when (negb (lr_won r && (lr_i r =? i) && (lr_key r =? ic_key (cfg_of b i)))) 2032
+        | None => [2032]
+        end
+      else
+        (* a term that ends has had its promotion callback entered *)
+        when (io_flag x && ic_haspromote (cfg_of b i) && negb (io_promotes x =? io_terms x)) 2046
+  | ETrans i f to => when ((io_state (inst_of b i) =? stStopped) && negb (to =? stStopped)) 2040
+  | EApiRet i call res err gid =>
+      when (((call =? aStop) || (call =? aStopCtx)) && (res =? 0) && negb (io_state (inst_of b i) =? stStopped)) 2041
+  (* callbacks: one promotion per term, entered while the term is alive; a demotion only when one is owed;
+     the claim is raised only when no demotion is owed *)
+  | EPromote i tok gid =>
+      let x := inst_of b i in
+      when (negb (io_flag x)) 2042 ++ when (negb (io_promotes x <? io_terms x)) 2043
+  | EDemote i gid => let x := inst_of b i in when (negb (io_demotes x <? io_ended x)) 2044
+  | EExtPut key val rev => when (negb (rev =? b_seq b + 1)) 2050
+  | EExtDel key rev => when (negb (rev =? b_seq b + 1)) 2050
+  | EExpire key rev => when (negb (last_rev_of b key =? rev) || (rev =? 0)) 2052
+  | _ => []
+  end.
+
+(* a trace is admitted when every observation satisfies the rules *)
+Fixpoint admits (b : base) (tr : trace) : bool :=
+  match tr with
+  | [] => true
+  | te :: r => match guards b te with [] => admits (bapply b te) r | _ => false end
+  end.
+
+(* for the correspondence check: every rule violation of a trace, with its index *)
+Fixpoint run_guards (b : base) (tr : trace) (idx : Z) : list (Z * rule) :=
+  match tr with
+  | [] => []
+  | te :: r => (if b_ended b then [] else map (fun g => (idx, g)) (guards b te)) ++ run_guards (bapply b te) r (idx + 1)
+  end.
+
+Definition check_guards (tr : trace) : list (Z * rule) := run_guards base0 tr 0.
